@@ -38,6 +38,7 @@ PROPERTY = "C08"
 CXX_EXTRA = ["-fno-sanitize=undefined", "-g1"]
 
 F7_SIG = "F7-eig-segment-N=d+skip"
+F44_SIG = "F44-hlle-k-below-estimator-minimum"
 
 TRUSTED = [
     "hand-written model Lle_Model.v tied by differential testing on the public routine templates (not a proof about the C++ text)",
@@ -317,6 +318,20 @@ def gen_emb(rng, meth, thorough):
     if flat:
         c["flatX"] = [list(x) for x in X]
     return c
+
+
+def gen_emb_hlle_small_k(rng):
+    """num_neighbors below 1 + d + d(d+1)/2 (the number of columns of HLLE's local estimator) on exactly flat
+    data: the request must be rejected, or the result must still be affine in the coordinates"""
+    d = rng.choice([2, 2, 3])
+    nc = hlle_ncols(d)
+    n = nc + rng.randint(4, 6)
+    X, pts = flat_data(rng, n, d, 6)
+    n = len(pts)
+    k = rng.randint(max(3, d), nc - 1)
+    return {"kind": "EMB", "meth": "hlle", "nm": "brute", "n": n, "k": k, "d": d, "shift": "0", "tshift": "0",
+            "kern": kernel_table(pts, "linear"), "flatX": [list(x) for x in X], "small_k": True,
+            "gen": "emb-hlle-k-below-minimum"}
 
 
 def gen_emb_f7(rng):
@@ -599,7 +614,7 @@ class Stats:
         self.nontrivial = set()
         self.counts = {"wm_compared": 0, "wm_unique": 0, "wm_degenerate": 0, "emb_checked": 0,
                        "emb_centred_checked": 0, "emb_affine_checked": 0, "eig_contract_calls": 0,
-                       "model_oob_agree": 0, "exceptions": 0, "f7_seen": 0, "hlle_ill_conditioned": 0}
+                       "model_oob_agree": 0, "exceptions": 0, "f7_seen": 0, "hlle_ill_conditioned": 0, "small_k_rejected": 0, "small_k_accepted": 0}
         self.samples = []
         self.heavy = {"heavy_d3": 2, "heavy_d4": 0}   # exact HLLE model runs with 10 / 15 Gram-Schmidt columns
 
@@ -787,9 +802,13 @@ def evaluate(ctx, exe, mexe, cases, stats):
                 continue
             todo.append((c, res, c["nbrs"]))
         else:
+            if res["exc"] and c.get("small_k") and "range check failed" in str(res["exc"]):
+                stats.counts["small_k_rejected"] += 1     # documented parameter error: fine
+                continue
             if res["exc"]:
                 stats.counts["exceptions"] += 1
-                ctx.violation(slim(c), "embed() threw on a valid request (k in [3,N), d in [1,N)): " + str(res["exc"])[:300])
+                ctx.violation(slim(c), "embed() threw on a request its validation accepted (k in [3,N), d in [1,k]): "
+                              + str(res["exc"])[:300], signature=F44_SIG if c.get("small_k") else None)
                 continue
             if "ragged-neighbours" in res["mats"] or "nbrs" not in res["mats"] or "emb" not in res["mats"] \
                     or "M" not in res["mats"]:
@@ -892,7 +911,10 @@ def evaluate(ctx, exe, mexe, cases, stats):
     for t, (c, res, nb) in emb:
         if "flatX" not in c or c["meth"] not in ("ltsa", "hlle"):
             continue
-        if c["meth"] == "hlle" and not hlle_well_conditioned(c, nb, res["mats"]):
+        small_k = bool(c.get("small_k")) and len(nb[0]) < hlle_ncols(c["d"])
+        if small_k:
+            stats.counts["small_k_accepted"] += 1
+        if c["meth"] == "hlle" and not small_k and not hlle_well_conditioned(c, nb, res["mats"]):
             continue
         if not local_flat_ok(res["mats"], len(nb[0]), c["d"]):
             continue
@@ -909,7 +931,7 @@ def evaluate(ctx, exe, mexe, cases, stats):
         mu = float(fr(c["shift"])) if c["meth"] == "ltsa" else 0.0
         top = 1 + max(abs(x) for x in lam)
         # the bottom eigenspace must be exactly the d+1 affine functions: well separated from the rest
-        if not (abs(lam[d] - mu) <= 1e-9 * top and lam[d + 1] - mu > 1e-5 * top):
+        if not small_k and not (abs(lam[d] - mu) <= 1e-9 * top and lam[d + 1] - mu > 1e-5 * top):
             continue
         stats.counts["emb_affine_checked"] += 1
         worst = Fraction(0)
@@ -921,7 +943,72 @@ def evaluate(ctx, exe, mexe, cases, stats):
             worst = max(worst, r)
         if worst is not None and worst > Fraction(1, 10 ** 5):
             ctx.violation(slim(c), "samples lie on a %d-flat but a column of the %s embedding is not an affine "
-                                   "function of the intrinsic coordinates (residual %.3e)" % (d, c["meth"], float(worst)))
+                                   "function of the intrinsic coordinates (residual %.3e)%s"
+                          % (d, c["meth"], float(worst),
+                             "; num_neighbors = %d is below the %d columns of the local Hessian estimator and "
+                             "was accepted" % (len(nb[0]), hlle_ncols(d)) if small_k else ""),
+                          signature=F44_SIG if small_k else None)
+
+
+# ----------------------------------------------------------------------------- shrinking
+class Recorder:
+    """stands for ctx while a candidate case is re-evaluated silently"""
+    def __init__(self, ctx):
+        self._ctx, self.quick = ctx, ctx.quick
+        self.violations, self.mismatches, self._known = [], [], []
+
+    def run(self, *a, **kw):
+        return self._ctx.run(*a, **kw)
+
+    def violation(self, case, why, signature=None):
+        self.violations.append((why, signature))
+        return True
+
+    def mismatch(self, case, detail):
+        self.mismatches.append(detail)
+
+    def note(self, text):
+        pass
+
+
+def drop_sample(c, j):
+    """the EMB case without sample j (kernel table and coordinates restricted), or None"""
+    n = c["n"] - 1
+    if n < 4 or c["d"] > n - 1:
+        return None
+    keep = [i for i in range(c["n"]) if i != j]
+    out = dict(c, n=n, kern=[[c["kern"][a][b] for b in keep] for a in keep], k=min(c["k"], n - 1))
+    if "flatX" in c:
+        out["flatX"] = [c["flatX"][a] for a in keep]
+    if out["k"] < 3:
+        return None
+    return out
+
+
+def shrink_violations(ctx, exe, mexe, budget=16):
+    """greedy removal of samples from end-to-end counterexamples while the same clause keeps failing"""
+    for idx, (case, why) in enumerate(list(ctx._violations[:2])):
+        if case.get("kind") != "EMB" or case["n"] <= 5:
+            continue
+        head = str(why)[:40]
+        cur, steps = case, 0
+        j = cur["n"] - 1
+        while j >= 0 and steps < budget:
+            cand = drop_sample(cur, j)
+            j -= 1
+            if cand is None:
+                continue
+            steps += 1
+            rec = Recorder(ctx)
+            try:
+                evaluate(rec, exe, mexe, [cand], Stats())
+            except vlib.BuildError:
+                continue
+            if any(str(w)[:40] == head for w, _ in rec.violations):
+                cur = cand
+                j = min(j, cur["n"] - 1)
+        if cur is not case:
+            ctx._violations[idx] = (dict(cur, shrunk_from_n=case["n"]), why)
 
 
 # ----------------------------------------------------------------------------- plan
@@ -942,12 +1029,14 @@ def build_cases(ctx, rng, budget, thorough):
             cases.append(gen_emb(rng, meth, thorough))
     for _ in range(budget["f7"]):
         cases.append(gen_emb_f7(rng))
+    for _ in range(budget.get("small_k", 0)):
+        cases.append(gen_emb_hlle_small_k(rng))
     return cases
 
 
-QUICK = {"lle": 40, "ltsa": 30, "hlle_flat": 24, "hlle_oracle": 3, "malformed": 6, "emb": 12, "f7": 1}
-THOROUGH = {"lle": 240, "ltsa": 180, "hlle_flat": 120, "hlle_oracle": 12, "malformed": 24, "emb": 60, "f7": 2}
-SEARCH = {"lle": 120, "ltsa": 80, "hlle_flat": 60, "hlle_oracle": 10, "malformed": 0, "emb": 40, "f7": 0}
+QUICK = {"lle": 40, "ltsa": 30, "hlle_flat": 24, "hlle_oracle": 3, "malformed": 6, "emb": 12, "f7": 1, "small_k": 3}
+THOROUGH = {"lle": 240, "ltsa": 180, "hlle_flat": 120, "hlle_oracle": 12, "malformed": 24, "emb": 60, "f7": 2, "small_k": 12}
+SEARCH = {"lle": 120, "ltsa": 80, "hlle_flat": 60, "hlle_oracle": 10, "malformed": 0, "emb": 40, "f7": 0, "small_k": 4}
 
 
 def translate(ctx, self_test=False):
@@ -1002,6 +1091,8 @@ def run(ctx):
                 break
             evaluate(ctx, exe, mexe, extra[i:i + 60], stats)
         cases += extra
+    if ctx.has_violation():
+        shrink_violations(ctx, exe, mexe)
     samples = []
     seen = set()
     for c in cases:
